@@ -874,6 +874,11 @@ def fam_race(rng, n):
                         {"op": "burst", "items": hbs()}, {"op": "sleep", "ms": 400}, {"op": "burst", "items": hbs()},
                         {"op": "quiesce", "ms": 800}]
     out.append({"name": "race/sr_renewal", "conf": conf(sr_enable=True), "endpoints": customs(k), "steps": steps})
+    # one received frame forwarded to channel after channel, and a constant beacon frame written again and again, without
+    # waiting for the wires (the same, already encoded, frame object goes through WriteFrameTo / WriteFrameAll many times; the application itself
+    # does not touch the frame any more)
+    out.append({"name": "race/same_frame_written_many_times", "conf": conf(), "endpoints": customs(3),
+                "steps": opens(3) + [{"op": "beacon", "tag": 396001, "n": 400}, {"op": "quiesce", "ms": 500}]})
     # the cleaner's second tick (60 s) finds an entry to remove (a vehicle heard once, then silent) while another channel
     # keeps looking senders up: one vehicle on channel 0 at the start, another on channel 1 at 10 Hz for 62 s
     t = Tags(395000)
